@@ -99,6 +99,32 @@ def check(ctx: Ctx) -> str:
     ctx.check("node = nodes.MarkSafeIfAutoescape(node)" in s and s.index("MarkSafeIfAutoescape") < s.index("nodes.Mod("), "oldstyle:marksafe", "ext:InternationalizationExtension._make_node", "old style marks before formatting", "old style must mark the translated string safe (under autoescape) before %-formatting so that variable values get escaped", mn.loc())
     ctx.check("if num_called_num and key == 'num':\n                continue" in s, "newstyle:num", "ext:InternationalizationExtension._make_node", "num passed once", "a plural count named num must not be passed twice", mn.loc())
 
+    ctx.rule("R5", "coupled state in the trans parser: every (re)binding of the plural expression is accompanied, in the same block, by the recomputation of num_called_num from the same variable name")
+    pa = repo.func("ext:InternationalizationExtension.parse")
+    binds = [n_ for n_ in ast.walk(pa.node) if isinstance(n_, ast.Assign) and any(ast.unparse(t_) == "plural_expr" for t_ in n_.targets) and ast.unparse(n_.value) != "None"]
+    ctx.floor("plural_expr bindings", len(binds), 3)
+    for b in binds:
+        # walk outwards from the binding: the enclosing block (or the block of the enclosing if/else one level up) must assign num_called_num
+        found = False
+        cur: ast.AST = b
+        for _ in range(2):
+            par = getattr(cur, "_parent", None)
+            if par is None:
+                break
+            for field in ("body", "orelse"):
+                seq = getattr(par, field, None)
+                if isinstance(seq, list) and any(x is cur for x in seq):
+                    i = [k for k, x in enumerate(seq) if x is cur][0]
+                    for later in seq[i + 1:]:
+                        if isinstance(later, ast.Assign) and any(ast.unparse(t_) == "num_called_num" for t_ in later.targets):
+                            found = True
+            cur = par
+        ctx.check(found, f"plural_expr@{ast.unparse(b.value)[:30]}", "ext:InternationalizationExtension.parse", f"plural_expr = {ast.unparse(b.value)[:40]} without num_called_num update",
+                  f"`{ast.unparse(b)[:70]}` rebinds the plural expression but num_called_num is not recomputed next to it: the flag keeps the value of an earlier variable, so new-style gettext drops or keeps the user's `num` argument wrongly", pa.loc(b))
+    nums = [n_ for n_ in ast.walk(pa.node) if isinstance(n_, ast.Assign) and any(ast.unparse(t_) == "num_called_num" for t_ in n_.targets) and ast.unparse(n_.value) != "False"]
+    for a in nums:
+        ctx.check(ast.unparse(a.value).endswith("== 'num'"), f"num_called_num:{ast.unparse(a.value)[:30]}", "ext:InternationalizationExtension.parse", "num_called_num formula", f"num_called_num must be `<name> == 'num'`, is `{ast.unparse(a.value)}`", pa.loc(a))
+
     ctx.rule("R4", "extraction sees what rendering calls: extract_from_ast visits Call nodes whose callee is a Name in the gettext function list; babel_extract parses with the same options")
     ex = repo.func("ext:extract_from_ast")
     s = ast.unparse(ex.node)
